@@ -1016,12 +1016,13 @@ Proof. intros H. destruct (Nat.eq_dec j k). subst. left. split; auto.
 Lemma sreq_issued0 nw c r asg srv srv' o iss : sreq nw c r asg srv = Some (srv', o, iss) ->
   forall a, In a iss -> exists mb, a = (0, mb, 0).
 Proof.
-  assert (CC : forall id s s' o iss, cancel_comp nw id s = Some (s', o, iss) -> forall a, In a iss -> exists mb, a = (0, mb, 0)).
-  { unfold cancel_comp. intros id s s' o0 iss0 H a IN. repeat dmH H; inv H; destruct IN as [IN|[]]; subst; eauto. }
-  assert (CA : forall ids s s' o iss, cancel_all nw ids s = Some (s', o, iss) -> forall a, In a iss -> exists mb, a = (0, mb, 0)).
+  assert (CC : forall conn id s s' o iss, cancel_comp nw conn id s = Some (s', o, iss) -> forall a, In a iss -> exists mb, a = (0, mb, 0)).
+  { unfold cancel_comp. intros conn id s s' o0 iss0 H a IN. repeat dmH H; inv H; simpl in IN; try contradiction;
+    (destruct IN as [IN|IN]; [subst; eauto|contradiction]). }
+  assert (CA : forall conn ids s s' o iss, cancel_all nw conn ids s = Some (s', o, iss) -> forall a, In a iss -> exists mb, a = (0, mb, 0)).
   { induction ids as [|id rr IH]; intros s s' o0 iss0 H a IN; simpl in H. inv H. destruct IN.
-    destruct (cancel_comp nw id s) as [[[s1 o1] i1]|] eqn:C1; [|discriminate].
-    destruct (cancel_all nw rr s1) as [[[s2 o2] i2]|] eqn:C2; [|discriminate]. inv H.
+    destruct (cancel_comp nw conn id s) as [[[s1 o1] i1]|] eqn:C1; [|discriminate].
+    destruct (cancel_all nw conn rr s1) as [[[s2 o2] i2]|] eqn:C2; [|discriminate]. inv H.
     apply in_app_or in IN. destruct IN; [eapply CC|eapply IH]; eauto. }
   assert (DD : forall conn order s s' o iss, disconnect nw conn order s = Some (s', o, iss) -> forall a, In a iss -> exists mb, a = (0, mb, 0)).
   { unfold disconnect. intros conn order s s' o0 iss0 H a IN. repeat dmH H; inv H. eapply CA; eauto. }
@@ -1352,12 +1353,13 @@ Proof. unfold schedule. intros H k m IN. destruct ts. inv H. destruct IN.
 Definition down_cancels_in (o : sout) (iss : list addr) : Prop :=
   forall k c, In (k, MCancel c) (o_down o) -> In c iss.
 
-Lemma cancel_comp_down nw id s s' o iss : cancel_comp nw id s = Some (s', o, iss) -> down_cancels_in o iss.
-Proof. unfold cancel_comp. intros H k c IN. repeat dmH H; inv H; simpl in IN; apply broadcast_In in IN; destruct IN as [E _]; inv E; simpl; auto. Qed.
-Lemma cancel_all_down nw ids : forall s s' o iss, cancel_all nw ids s = Some (s', o, iss) -> down_cancels_in o iss.
+Lemma cancel_comp_down nw conn id s s' o iss : cancel_comp nw conn id s = Some (s', o, iss) -> down_cancels_in o iss.
+Proof. unfold cancel_comp. intros H k c IN. repeat dmH H; inv H; simpl in IN; try contradiction;
+  (apply broadcast_In in IN; destruct IN as [E _]; inv E; simpl; auto). Qed.
+Lemma cancel_all_down nw conn ids : forall s s' o iss, cancel_all nw conn ids s = Some (s', o, iss) -> down_cancels_in o iss.
 Proof. induction ids as [|id rr IH]; intros s s' o iss H k c IN; simpl in H. inv H. destruct IN.
-  destruct (cancel_comp nw id s) as [[[s1 o1] i1]|] eqn:C1; [|discriminate].
-  destruct (cancel_all nw rr s1) as [[[s2 o2] i2]|] eqn:C2; [|discriminate]. inv H. simpl in IN.
+  destruct (cancel_comp nw conn id s) as [[[s1 o1] i1]|] eqn:C1; [|discriminate].
+  destruct (cancel_all nw conn rr s1) as [[[s2 o2] i2]|] eqn:C2; [|discriminate]. inv H. simpl in IN.
   apply in_app_or in IN. apply in_or_app. destruct IN; [left; eapply cancel_comp_down|right; eapply IH]; eauto. Qed.
 Lemma disconnect_down nw conn order s s' o iss : disconnect nw conn order s = Some (s', o, iss) -> down_cancels_in o iss.
 Proof. unfold disconnect. intros H. repeat dmH H; inv H. eapply cancel_all_down; eauto. Qed.
@@ -1616,14 +1618,15 @@ Definition cprop (s : sys) : Prop :=
     \/ (exists q, nth_error (sy_down s) k = Some q /\ In (MCancel c) q)
     \/ (exists j q, nth_error (sy_up s) j = Some q /\ In (MCancel c) q).
 
-Lemma cancel_comp_bcast nw id s s' o iss : cancel_comp nw id s = Some (s', o, iss) ->
+Lemma cancel_comp_bcast nw conn id s s' o iss : cancel_comp nw conn id s = Some (s', o, iss) ->
   forall a k, In a iss -> k < nw -> In (k, MCancel a) (o_down o).
-Proof. unfold cancel_comp. intros H a k IN L. repeat dmH H; inv H; destruct IN as [<-|[]]; simpl; apply broadcast_all; auto. Qed.
-Lemma cancel_all_bcast nw ids : forall s s' o iss, cancel_all nw ids s = Some (s', o, iss) ->
+Proof. unfold cancel_comp. intros H a k IN L. repeat dmH H; inv H; simpl in IN; try contradiction;
+  (destruct IN as [<-|[]]; simpl; apply broadcast_all; auto). Qed.
+Lemma cancel_all_bcast nw conn ids : forall s s' o iss, cancel_all nw conn ids s = Some (s', o, iss) ->
   forall a k, In a iss -> k < nw -> In (k, MCancel a) (o_down o).
 Proof. induction ids as [|id rr IH]; intros s s' o iss H a k IN L; simpl in H. inv H. destruct IN.
-  destruct (cancel_comp nw id s) as [[[s1 o1] i1]|] eqn:C1; [|discriminate].
-  destruct (cancel_all nw rr s1) as [[[s2 o2] i2]|] eqn:C2; [|discriminate]. inv H. simpl.
+  destruct (cancel_comp nw conn id s) as [[[s1 o1] i1]|] eqn:C1; [|discriminate].
+  destruct (cancel_all nw conn rr s1) as [[[s2 o2] i2]|] eqn:C2; [|discriminate]. inv H. simpl.
   apply in_app_or in IN. apply in_or_app. destruct IN; [left; eapply cancel_comp_bcast|right; eapply IH]; eauto. Qed.
 Lemma disconnect_bcast nw conn order s s' o iss : disconnect nw conn order s = Some (s', o, iss) ->
   forall a k, In a iss -> k < nw -> In (k, MCancel a) (o_down o).
@@ -1930,23 +1933,52 @@ Proof. induction l as [|z l IH]; simpl; intros N. split; auto. inv N. destruct (
   apply Nat.eqb_eq in E. subst. split; auto. apply Nat.eqb_neq in E. destruct (IH H2) as [A B]. split.
   constructor; auto. intro X. apply H1. eapply In_remove_first; eauto. intros [X|X]; auto. Qed.
 
+Lemma list_eqb_eq a : forall b, list_eqb a b = true -> a = b.
+Proof. induction a as [|x a IH]; intros [|y b] H; simpl in H; try discriminate; auto.
+  apply andb_true_iff in H. destruct H as [H1 H2]. apply Nat.eqb_eq in H1. subst. f_equal; auto. Qed.
+Lemma insert_sorted_In x y l : In x (insert_sorted y l) <-> x = y \/ In x l.
+Proof. induction l as [|z l IH]; simpl. intuition. destruct (y <=? z); simpl. intuition. rewrite IH. intuition. Qed.
+Lemma sort_nat_In x l : In x (sort_nat l) <-> In x l.
+Proof. induction l as [|z l IH]; simpl. tauto. rewrite insert_sorted_In, IH. intuition. Qed.
+
+Lemma ln_filter_some {V} (f : nat * V -> bool) k v l : lookup_n k (filter f l) = Some v -> In (k, v) l /\ f (k, v) = true.
+Proof. intros H. apply ln_In in H. apply filter_In in H. auto. Qed.
+
+Lemma NoDup_snoc {A} (l : list A) x : NoDup l -> ~ In x l -> NoDup (l ++ [x]).
+Proof. induction l as [|y l IH]; simpl; intros N H.
+  - constructor. intros []. constructor.
+  - inv N. constructor.
+    + intro X. apply in_app_or in X. destruct X as [X|[X|[]]]; auto.
+    + apply IH; auto.
+Qed.
+
+
+Lemma NoDup_keys_remove {V} k (l : list (nat * V)) : NoDup (map fst l) -> NoDup (map fst (remove_n k l)).
+Proof. induction l as [|[k' v] l IH]; simpl; intros N; auto. inv N. destruct (Nat.eqb k k'); auto. simpl. constructor; auto.
+  intro X. apply H1. apply in_map_iff in X. destruct X as ([k2 v2] & E & IN). simpl in E. subst.
+  apply (In_remove Nat.eqb Nat.eqb_eq) in IN. apply in_map_iff. exists (k', v2). tauto. Qed.
+Lemma ln_remove_some {V} k j v (l : list (nat * V)) : lookup_n k (remove_n j l) = Some v -> k <> j /\ lookup_n k l = Some v.
+Proof. intros H. destruct (Nat.eq_dec k j). subst. rewrite ln_remove_same in H. discriminate. rewrite ln_remove_other in H; auto. Qed.
+
 Record srv_inv (s : sstate) : Prop := {
   sv_box : forall mb b, lookup_n mb (s_boxes s) = Some b ->
      exists id c ids, lookup_n mb (s_m2t s) = Some id /\ lookup_n id (s_tasks s) = Some (mb, c)
                       /\ lookup_n c (s_clients s) = Some ids /\ In id ids;
   sv_task : forall id mb c, lookup_n id (s_tasks s) = Some (mb, c) -> mb < s_counter s /\ lookup_n mb (s_m2t s) = Some id;
+  sv_m2t2 : forall mb id, lookup_n mb (s_m2t s) = Some id -> exists c, lookup_n id (s_tasks s) = Some (mb, c);
   sv_cli : forall c ids id, lookup_n c (s_clients s) = Some ids -> In id ids ->
      exists mb, lookup_n id (s_tasks s) = Some (mb, c) /\ lookup_n mb (s_boxes s) <> None;
   sv_nodup : forall c ids, lookup_n c (s_clients s) = Some ids -> NoDup ids;
   sv_blt : forall mb, lookup_n mb (s_boxes s) <> None -> mb < s_counter s;
   sv_m2t : forall mb id, In (mb, id) (s_m2t s) -> mb < s_counter s;
-  sv_keys : NoDup (map fst (s_tasks s))
+  sv_keys : NoDup (map fst (s_tasks s));
+  sv_keys2 : NoDup (map fst (s_m2t s))
 }.
 
 Lemma srv_inv_init : srv_inv init_server.
-Proof. constructor; simpl; intros; try discriminate; try congruence; try contradiction. constructor. Qed.
+Proof. constructor; simpl; intros; try discriminate; try congruence; try contradiction; constructor. Qed.
 
-(* removing the mailbox of task id (and the id from its client's set) keeps the invariant *)
+(* the result was delivered: mailbox and id in the client's set go, tasks / mailbox_to_task_dict stay *)
 Lemma srv_inv_drop s id mb c cl' : srv_inv s -> lookup_n id (s_tasks s) = Some (mb, c) ->
   (forall c0 ids0, lookup_n c0 cl' = Some ids0 ->
      exists ids1, lookup_n c0 (s_clients s) = Some ids1 /\ NoDup ids0 /\ (forall x, In x ids1 -> x <> id -> In x ids0)
@@ -1954,7 +1986,7 @@ Lemma srv_inv_drop s id mb c cl' : srv_inv s -> lookup_n id (s_tasks s) = Some (
   (forall c0 ids1, lookup_n c0 (s_clients s) = Some ids1 -> exists ids0, lookup_n c0 cl' = Some ids0) ->
   srv_inv (set_s_clients cl' (set_s_boxes (remove_n mb (s_boxes s)) s)).
 Proof.
-  intros [SB ST SC SN SL SM SK] T CL1 CL2. constructor; simpl; auto.
+  intros [SB ST SM2 SC SN SL SM SK SK2] T CL1 CL2. constructor; simpl; auto.
   - intros mb' b L. destruct (Nat.eq_dec mb' mb). subst. rewrite ln_remove_same in L. discriminate.
     rewrite ln_remove_other in L by auto. destruct (SB _ _ L) as (id0 & c0 & ids0 & A1 & A2 & A3 & A4).
     destruct (CL2 _ _ A3) as [ids' L']. exists id0, c0, ids'. repeat split; auto.
@@ -1968,84 +2000,116 @@ Proof.
   - intros mb' N. apply SL. intro E. apply N. apply ln_remove_none; auto.
 Qed.
 
-Lemma cancel_comp_spec nw id s s' o iss : cancel_comp nw id s = Some (s', o, iss) -> srv_inv s ->
-  exists mb c, lookup_n id (s_tasks s) = Some (mb, c)
-    /\ srv_inv s'
-    /\ lookup_n mb (s_boxes s') = None
-    /\ (forall ids, lookup_n c (s_clients s') = Some ids -> ~ In id ids)
-    /\ iss = [(0, mb, 0)] /\ o_down o = broadcast nw (MCancel (0, mb, 0))
-    /\ s_tasks s' = s_tasks s /\ s_m2t s' = s_m2t s /\ s_counter s' = s_counter s /\ s_closed s' = s_closed s
-    /\ (forall mb', lookup_n mb' (s_boxes s) = None -> lookup_n mb' (s_boxes s') = None)
-    /\ (forall mb', mb' <> mb -> lookup_n mb' (s_boxes s') = lookup_n mb' (s_boxes s))
-    /\ (forall c', lookup_n c' (s_clients s') = None <-> lookup_n c' (s_clients s) = None).
+(* the task was cancelled: everything about it goes *)
+Lemma srv_inv_forget s id mb c ids : srv_inv s -> lookup_n id (s_tasks s) = Some (mb, c) ->
+  lookup_n c (s_clients s) = Some ids ->
+  srv_inv (set_s_clients (put_n c (remove_first id ids) (s_clients s))
+            (set_s_m2t (remove_n mb (s_m2t s)) (set_s_boxes (remove_n mb (s_boxes s)) (set_s_tasks (remove_n id (s_tasks s)) s)))).
+Proof.
+  intros [SB ST SM2 SC SN SL SM SK SK2] T C.
+  pose proof (SN _ _ C) as ND. destruct (NoDup_remove_first id _ ND) as [ND1 ND2].
+  destruct (ST _ _ _ T) as [TB TM].
+  assert (OTHER : forall id' mb' c', lookup_n id' (s_tasks s) = Some (mb', c') -> id' <> id -> mb' <> mb).
+  { intros id' mb' c' L N E. subst. destruct (ST _ _ _ L) as [_ X]. congruence. }
+  constructor; simpl.
+  - intros mb' b L. apply ln_remove_some in L. destruct L as [N L].
+    destruct (SB _ _ L) as (id0 & c0 & ids0 & A1 & A2 & A3 & A4).
+    assert (id0 <> id). { intro; subst. rewrite T in A2. inv A2. congruence. }
+    destruct (Nat.eq_dec c0 c).
+    + subst. rewrite C in A3. inv A3. exists id0, c. eexists. rewrite ln_put_same, !ln_remove_other by auto.
+      repeat split; auto. apply In_remove_first_neq; auto.
+    + exists id0, c0, ids0. rewrite ln_put_other, !ln_remove_other by auto. auto.
+  - intros id' mb' c' L. apply ln_remove_some in L. destruct L as [N L]. destruct (ST _ _ _ L) as [Y1 Y2]. split; auto.
+    rewrite ln_remove_other; eauto.
+  - intros mb' id' L. apply ln_remove_some in L. destruct L as [N L]. destruct (SM2 _ _ L) as [c' X]. exists c'.
+    rewrite ln_remove_other; auto. intro; subst. rewrite T in X. inv X. congruence.
+  - intros c0 ids0 id' L IN.
+    assert (X : exists idsX, lookup_n c0 (s_clients s) = Some idsX /\ In id' idsX /\ id' <> id).
+    { destruct (Nat.eq_dec c0 c).
+      - subst. rewrite ln_put_same in L. inv L. exists ids. split; auto. split. eapply In_remove_first; eauto. intro; subst; contradiction.
+      - rewrite ln_put_other in L by auto. exists ids0. split; auto. split; auto. intro; subst.
+        destruct (SC _ _ _ L IN) as (mb1 & M1 & _). rewrite T in M1. inv M1. congruence. }
+    destruct X as (idsX & X1 & X2 & X3). destruct (SC _ _ _ X1 X2) as (mb1 & M1 & M2). exists mb1.
+    rewrite !ln_remove_other; eauto.
+  - intros c0 ids0 L. destruct (Nat.eq_dec c0 c). subst. rewrite ln_put_same in L. inv L. auto. rewrite ln_put_other in L by auto. eauto.
+  - intros mb' N. apply SL. intro E. apply N. apply ln_remove_none; auto.
+  - intros mb' id' IN. apply (In_remove Nat.eqb Nat.eqb_eq) in IN. destruct IN. eauto.
+  - apply NoDup_keys_remove; auto.
+  - apply NoDup_keys_remove; auto.
+Qed.
+
+(* a handler that only forgets things *)
+Definition submap {V} (m' m : list (nat * V)) : Prop := forall k v, lookup_n k m' = Some v -> lookup_n k m = Some v.
+Record sshrink (s s' : sstate) : Prop := {
+  sh_counter : s_counter s' = s_counter s;
+  sh_tasks : submap (s_tasks s') (s_tasks s);
+  sh_m2t : submap (s_m2t s') (s_m2t s);
+  sh_boxes : submap (s_boxes s') (s_boxes s);
+  sh_cl_none : forall c, lookup_n c (s_clients s') = None <-> lookup_n c (s_clients s) = None;
+  sh_cl_some : forall c ids', lookup_n c (s_clients s') = Some ids' ->
+                 exists ids, lookup_n c (s_clients s) = Some ids /\ incl ids' ids
+}.
+Lemma sshrink_refl s : sshrink s s.
+Proof. constructor; auto; try (intros k v H; exact H). tauto. intros c ids' H. exists ids'. split; auto. apply incl_refl. Qed.
+Lemma sshrink_trans a b c : sshrink a b -> sshrink b c -> sshrink a c.
+Proof. intros [A1 A2 A3 A4 A5 A6] [B1 B2 B3 B4 B5 B6]. constructor.
+  congruence. intros k v H; auto. intros k v H; auto. intros k v H; auto.
+  intros x. rewrite B5, A5. tauto.
+  intros x ids' H. destruct (B6 _ _ H) as (i1 & H1 & H2). destruct (A6 _ _ H1) as (i2 & H3 & H4). exists i2. split; auto.
+  eapply incl_tran; eauto. Qed.
+Lemma submap_none {V} (m' m : list (nat * V)) k : submap m' m -> lookup_n k m = None -> lookup_n k m' = None.
+Proof. intros S N. destruct (lookup_n k m') eqn:E; auto. apply S in E. congruence. Qed.
+Lemma submap_remove {V} k (m : list (nat * V)) : submap (remove_n k m) m.
+Proof. intros j v H. apply ln_remove_some in H. tauto. Qed.
+
+Lemma cancel_comp_spec nw conn id s s' o iss : cancel_comp nw conn id s = Some (s', o, iss) -> srv_inv s ->
+  srv_inv s' /\ sshrink s s' /\ s_closed s' = s_closed s
+  /\ (forall ids', lookup_n conn (s_clients s') = Some ids' -> ~ In id ids')
+  /\ ((exists ids mb, lookup_n conn (s_clients s) = Some ids /\ In id ids /\ lookup_n id (s_tasks s) = Some (mb, conn)
+          /\ lookup_n id (s_tasks s') = None /\ lookup_n mb (s_m2t s') = None /\ lookup_n mb (s_boxes s') = None
+          /\ iss = [(0, mb, 0)] /\ o_down o = broadcast nw (MCancel (0, mb, 0)))
+       \/ (s' = s /\ iss = [] /\ o_down o = []
+            /\ forall ids, lookup_n conn (s_clients s) = Some ids -> ~ In id ids)).
 Proof.
   unfold cancel_comp. intros H I.
-  destruct (lookup_n id (s_tasks s)) as [[mb c]|] eqn:T; [|discriminate].
-  destruct (lookup_n mb (s_boxes s)) eqn:B; [|discriminate]. simpl in H.
-  destruct (lookup_n c (s_clients s)) as [ids|] eqn:C.
-  - destruct (mem_nat id ids) eqn:M; inv H. exists mb, c. split; auto. simpl.
+  destruct (lookup_n conn (s_clients s)) as [ids|] eqn:C; [|discriminate].
+  destruct (mem_nat id ids) eqn:M.
+  - apply mem_nat_In in M. destruct (sv_cli _ I _ _ _ C M) as (mb & T & B). rewrite T in H.
+    destruct (lookup_n mb (s_boxes s)) eqn:BB; [|congruence].
+    destruct (sv_task _ I _ _ _ T) as [_ M2]. rewrite M2 in H. inv H. simpl.
     pose proof (sv_nodup _ I _ _ C) as ND. destruct (NoDup_remove_first id _ ND) as [ND1 ND2].
-    split; [|split; [apply ln_remove_same|split; [|repeat split; auto]]].
-    + apply (srv_inv_drop s id mb c); auto.
-      * intros c0 ids0 L. destruct (Nat.eq_dec c0 c). subst. rewrite ln_put_same in L. inv L. exists ids. repeat split; auto.
-        intros; apply In_remove_first_neq; auto. eapply In_remove_first; eauto. intro; subst; contradiction.
-        rewrite ln_put_other in L by auto. exists ids0. repeat split; auto. eapply sv_nodup; eauto.
-        intro; subst. destruct (sv_cli _ I _ _ _ L H) as (mb0 & M1 & _). rewrite T in M1. inv M1. congruence.
-      * intros c0 ids1 L. destruct (Nat.eq_dec c0 c). subst. rewrite ln_put_same. eauto. rewrite ln_put_other by auto. eauto.
+    split. apply srv_inv_forget; auto. split; [|split; [auto|split]].
+    + constructor; simpl; auto; try apply submap_remove.
+      * intros c. destruct (Nat.eq_dec c conn). subst. rewrite ln_put_same, C. split; discriminate. rewrite ln_put_other; tauto.
+      * intros c ids' L. destruct (Nat.eq_dec c conn). subst. rewrite ln_put_same in L. inv L. exists ids. split; auto.
+        intros x X. eapply In_remove_first; eauto. rewrite ln_put_other in L by auto. exists ids'. split; auto. apply incl_refl.
     + intros ids' L. rewrite ln_put_same in L. inv L. auto.
-    + intros; apply ln_remove_none; auto.
-    + intros; apply ln_remove_other; auto.
-    + destruct (Nat.eq_dec c' c). subst. rewrite ln_put_same. congruence. rewrite ln_put_other; auto.
-    + destruct (Nat.eq_dec c' c). subst. rewrite ln_put_same. congruence. rewrite ln_put_other; auto.
-  - inv H. exists mb, c. split; auto. simpl.
-    (* the owner is not connected: impossible for a mailbox that still exists *)
-    exfalso. destruct (sv_box _ I _ _ B) as (id0 & c0 & ids0 & A1 & A2 & A3 & A4).
-    destruct (sv_task _ I _ _ _ T) as [_ M2]. rewrite M2 in A1. inv A1. rewrite T in A2. inv A2. congruence.
+    + left. exists ids, mb. repeat split; auto; apply ln_remove_same.
+  - assert (NI : ~ In id ids). { intro X. apply mem_nat_In in X. congruence. }
+    inv H. split; auto. split. apply sshrink_refl. split; auto. split. intros ids' L. rewrite C in L. inv L. auto.
+    right. repeat split; auto. intros ids' L. inv L. auto.
 Qed.
 
-(* cancel_comp when the owner's connection is not (any more) in `clients`: what handle_disconnect's loop runs *)
-Lemma cancel_comp_raw nw id s s' o iss c mb : cancel_comp nw id s = Some (s', o, iss) ->
-  lookup_n id (s_tasks s) = Some (mb, c) -> lookup_n c (s_clients s) = None ->
-  s' = set_s_boxes (remove_n mb (s_boxes s)) s /\ lookup_n mb (s_boxes s) <> None
-  /\ iss = [(0, mb, 0)] /\ o_down o = broadcast nw (MCancel (0, mb, 0)).
-Proof. unfold cancel_comp. intros H T C. rewrite T in H. destruct (lookup_n mb (s_boxes s)) eqn:B; [|discriminate].
-  simpl in H. rewrite C in H. inv H. repeat split; auto. congruence. Qed.
-
-Lemma cancel_all_spec nw c : forall ids s s' o iss, cancel_all nw ids s = Some (s', o, iss) ->
-  lookup_n c (s_clients s) = None -> (forall id, In id ids -> exists mb, lookup_n id (s_tasks s) = Some (mb, c)) ->
-  s_tasks s' = s_tasks s /\ s_m2t s' = s_m2t s /\ s_counter s' = s_counter s /\ s_closed s' = s_closed s
-  /\ s_clients s' = s_clients s
-  /\ (forall id mb, In id ids -> lookup_n id (s_tasks s) = Some (mb, c) -> lookup_n mb (s_boxes s') = None)
-  /\ (forall mb', (forall id, In id ids -> lookup_n id (s_tasks s) <> Some (mb', c)) -> lookup_n mb' (s_boxes s') = lookup_n mb' (s_boxes s))
-  /\ (forall mb', lookup_n mb' (s_boxes s) = None -> lookup_n mb' (s_boxes s') = None)
-  /\ (forall a, In a iss -> exists id mb, In id ids /\ lookup_n id (s_tasks s) = Some (mb, c) /\ a = (0, mb, 0)).
+Lemma cancel_all_spec nw conn : forall ids s s' o iss, cancel_all nw conn ids s = Some (s', o, iss) -> srv_inv s ->
+  srv_inv s' /\ sshrink s s' /\ s_closed s' = s_closed s
+  /\ (forall id ids', In id ids -> lookup_n conn (s_clients s') = Some ids' -> ~ In id ids')
+  /\ (forall a, In a iss -> exists id mb, In id ids /\ lookup_n id (s_tasks s) = Some (mb, conn) /\ a = (0, mb, 0)).
 Proof.
-  induction ids as [|id rr IH]; intros s s' o iss H C T; simpl in H.
-  - inv H. repeat split; auto. intros id mb []. intros a [].
-  - destruct (cancel_comp nw id s) as [[[s1 o1] i1]|] eqn:C1; [|discriminate].
-    destruct (cancel_all nw rr s1) as [[[s2 o2] i2]|] eqn:C2; [|discriminate]. inv H.
-    destruct (T id (or_introl eq_refl)) as [mb TI].
-    destruct (cancel_comp_raw _ _ _ _ _ _ _ _ C1 TI C) as (E1 & E2 & E3 & E4). subst s1.
-    apply IH in C2; simpl; auto; [|intros id0 IN0; apply T; right; auto]. simpl in C2.
-    destruct C2 as (A1 & A2 & A3 & A4 & A5 & A6 & A7 & A8 & A9).
-    repeat split; auto.
-    + intros id' mb' [->|IN] L. rewrite TI in L. inv L. apply A8. apply ln_remove_same. eapply A6; eauto.
-    + intros mb' N. rewrite A7. apply ln_remove_other. intro; subst. apply (N id); auto. intros id' IN. apply N. right; auto.
-    + intros mb' N. apply A8. apply ln_remove_none; auto.
-    + intros a IN. apply in_app_or in IN. destruct IN as [IN|IN]. subst i1. destruct IN as [<-|[]]. exists id, mb. auto.
-      destruct (A9 _ IN) as (id' & mb' & X1 & X2 & X3). exists id', mb'. auto.
+  induction ids as [|id rr IH]; intros s s' o iss H I; simpl in H.
+  - inv H. split; auto. split. apply sshrink_refl. split; auto. split. intros id ids' []. intros a [].
+  - destruct (cancel_comp nw conn id s) as [[[s1 o1] i1]|] eqn:C1; [|discriminate].
+    destruct (cancel_all nw conn rr s1) as [[[s2 o2] i2]|] eqn:C2; [|discriminate]. inv H.
+    destruct (cancel_comp_spec _ _ _ _ _ _ _ C1 I) as (I1 & S1 & K1 & N1 & D1).
+    destruct (IH _ _ _ _ C2 I1) as (I2 & S2 & K2 & N2 & D2).
+    split; auto. split. eapply sshrink_trans; eauto. split. congruence. split.
+    + intros x ids' [->|IN] L; [|eapply N2; eauto].
+      destruct (sh_cl_some _ _ S2 _ _ L) as (ids1 & L1 & INC). intro X. apply INC in X. eapply N1; eauto.
+    + intros a IN. apply in_app_or in IN. destruct IN as [IN|IN].
+      * destruct D1 as [(ids0 & mb & A1 & A2 & A3 & _ & _ & _ & A4 & _)|(_ & A4 & _)]; subst i1; [|destruct IN].
+        destruct IN as [<-|[]]. exists id, mb. split; auto. left; auto.
+      * destruct (D2 _ IN) as (id' & mb & X1 & X2 & X3). exists id', mb. split. right; auto. split; auto.
+        eapply (sh_tasks _ _ S1); eauto.
 Qed.
-
-Lemma list_eqb_eq a : forall b, list_eqb a b = true -> a = b.
-Proof. induction a as [|x a IH]; intros [|y b] H; simpl in H; try discriminate; auto.
-  apply andb_true_iff in H. destruct H as [H1 H2]. apply Nat.eqb_eq in H1. subst. f_equal; auto. Qed.
-Lemma insert_sorted_In x y l : In x (insert_sorted y l) <-> x = y \/ In x l.
-Proof. induction l as [|z l IH]; simpl. intuition. destruct (y <=? z); simpl. intuition. rewrite IH. intuition. Qed.
-Lemma sort_nat_In x l : In x (sort_nat l) <-> In x l.
-Proof. induction l as [|z l IH]; simpl. tauto. rewrite insert_sorted_In, IH. intuition. Qed.
-
-Lemma ln_filter_some {V} (f : nat * V -> bool) k v l : lookup_n k (filter f l) = Some v -> In (k, v) l /\ f (k, v) = true.
-Proof. intros H. apply ln_In in H. apply filter_In in H. auto. Qed.
 
 Lemma disconnect_spec nw c order s s' o iss : disconnect nw c order s = Some (s', o, iss) -> srv_inv s ->
   srv_inv s'
@@ -2054,98 +2118,98 @@ Lemma disconnect_spec nw c order s s' o iss : disconnect nw c order s = Some (s'
   /\ (forall id mb, lookup_n id (s_tasks s) = Some (mb, c) ->
         lookup_n id (s_tasks s') = None /\ lookup_n mb (s_m2t s') = None /\ lookup_n mb (s_boxes s') = None)
   /\ (forall a, In a iss -> exists id mb, lookup_n id (s_tasks s) = Some (mb, c) /\ a = (0, mb, 0))
-  /\ (forall mb', lookup_n mb' (s_boxes s) = None -> lookup_n mb' (s_boxes s') = None)
-  /\ s_counter s' = s_counter s
-  /\ (forall c', c' <> c -> lookup_n c' (s_clients s') = lookup_n c' (s_clients s))
-  /\ (forall x, In x (s_closed s') <-> x = c \/ In x (s_closed s)).
+  /\ submap (s_boxes s') (s_boxes s) /\ submap (s_m2t s') (s_m2t s)
+  /\ s_counter s' = s_counter s.
 Proof.
   unfold disconnect. intros H I. destruct (lookup_n c (s_clients s)) as [ids|] eqn:C; [|discriminate].
   destruct (list_eqb (sort_nat order) (sort_nat ids)) eqn:LE; [|discriminate]. apply list_eqb_eq in LE.
   assert (PERM : forall x, In x order <-> In x ids). { intros x. rewrite <- (sort_nat_In x order), LE, sort_nat_In. tauto. }
-  match type of H with context[cancel_all nw order ?x] => set (s1 := x) in * end.
-  destruct (cancel_all nw order s1) as [[[s2 o2] i2]|] eqn:CA; [|discriminate].
-  inv H. pose proof I as [SB ST SC SN SL SM SK].
-  assert (C1 : lookup_n c (s_clients s1) = None) by (simpl; apply ln_remove_same).
-  assert (T1 : forall id, In id order -> exists mb, lookup_n id (s_tasks s1) = Some (mb, c)).
-  { intros id IN. apply PERM in IN. destruct (SC _ _ _ C IN) as (mb & M1 & _). eauto. }
-  destruct (cancel_all_spec _ _ _ _ _ _ _ CA C1 T1) as (A1 & A2 & A3 & A4 & A5 & A6 & A7 & A8 & A9). simpl in *.
-  set (keep := fun e : nat * (nat * nat) => negb (snd (snd e) =? c)).
-  set (gone := filter (fun e : nat * (nat * nat) => snd (snd e) =? c) (s_tasks s2)).
-  (* a mailbox that survives belongs to another client *)
-  assert (BOXC : forall id mb, lookup_n id (s_tasks s) = Some (mb, c) -> lookup_n mb (s_boxes s2) = None).
-  { intros id mb L. destruct (lookup_n mb (s_boxes s)) eqn:B; [|apply A8; auto].
+  match type of H with context[cancel_all nw c order ?x] => set (s1 := x) in * end.
+  destruct (cancel_all nw c order s1) as [[[s2 o2] i2]|] eqn:CA; [|discriminate]. inv H.
+  assert (I1 : srv_inv s1). { destruct I. constructor; simpl; auto. }
+  destruct (cancel_all_spec _ _ _ _ _ _ _ CA I1) as (I2 & SH & K2 & N2 & D2). simpl in *.
+  pose proof I2 as [SB ST SM2 SC SN SL SM SK SK2].
+  destruct SH as [H1 H2 H3 H4 H5 H6]. simpl in *.
+  (* after the loop the set of the connection is empty *)
+  assert (EMPTY : forall ids', lookup_n c (s_clients s2) = Some ids' -> forall x, ~ In x ids').
+  { intros ids' L x X. destruct (H6 _ _ L) as (ids0 & L0 & INC). rewrite C in L0. inv L0.
+    eapply N2; eauto. apply PERM. apply INC. auto. }
+  assert (NOBOX : forall id mb, lookup_n id (s_tasks s2) = Some (mb, c) -> lookup_n mb (s_boxes s2) = None).
+  { intros id mb L. destruct (lookup_n mb (s_boxes s2)) eqn:B; auto. exfalso.
     destruct (SB _ _ B) as (id0 & c0 & ids0 & X1 & X2 & X3 & X4). destruct (ST _ _ _ L) as [_ Y]. rewrite Y in X1. inv X1.
-    rewrite L in X2. inv X2. rewrite C in X3. inv X3. eapply A6; eauto. apply PERM; auto. }
-  assert (GONE : forall mb, In mb (map (fun g : nat * (nat * nat) => fst (snd g)) gone) <-> exists id, lookup_n id (s_tasks s) = Some (mb, c)).
+    rewrite L in X2. inv X2. eapply EMPTY; eauto. }
+  set (gone := filter (fun e : nat * (nat * nat) => snd (snd e) =? c) (s_tasks s2)).
+  assert (GONE : forall mb, In mb (map (fun g : nat * (nat * nat) => fst (snd g)) gone) <-> exists id, lookup_n id (s_tasks s2) = Some (mb, c)).
   { intros mb. rewrite in_map_iff. split.
     - intros ([id [mb' c']] & E & IN). simpl in E. subst. apply filter_In in IN. destruct IN as [IN E]. simpl in E. apply Nat.eqb_eq in E. subst.
-      exists id. rewrite A1 in IN. apply ln_unique; auto.
-    - intros [id L]. exists (id, (mb, c)). split; auto. apply filter_In. split. rewrite A1. apply ln_In; auto. simpl. apply Nat.eqb_refl. }
-  assert (M2T : forall mb id, lookup_n mb (s_m2t s) = Some id -> (forall id', lookup_n id' (s_tasks s) <> Some (mb, c)) ->
+      exists id. apply ln_unique; auto.
+    - intros [id L]. exists (id, (mb, c)). split; auto. apply filter_In. split. apply ln_In; auto. simpl. apply Nat.eqb_refl. }
+  assert (M2T : forall mb id c', lookup_n mb (s_m2t s2) = Some id -> lookup_n id (s_tasks s2) = Some (mb, c') -> c' <> c ->
             lookup_n mb (filter (fun e => negb (mem_nat (fst e) (map (fun g : nat * (nat * nat) => fst (snd g)) gone))) (s_m2t s2)) = Some id).
-  { intros mb id L N. apply ln_filter_keep. rewrite A2; auto. simpl. apply negb_true_iff.
+  { intros mb id c' L T N. apply ln_filter_keep; auto. simpl. apply negb_true_iff.
     destruct (mem_nat mb (map (fun g : nat * (nat * nat) => fst (snd g)) gone)) eqn:M; auto.
-    apply mem_nat_In in M. apply GONE in M. destruct M as [id' L']. exfalso. eapply N; eauto. }
-  split; [|split; [|split; [|split; [|split; [|split; [|split; [|split; [|split]]]]]]]].
-  - (* invariant *)
-    constructor; simpl.
-    + intros mb b L. destruct (lookup_n mb (s_boxes s)) eqn:B; [|rewrite A8 in L; congruence].
-      destruct (SB _ _ B) as (id0 & c0 & ids0 & X1 & X2 & X3 & X4).
-      assert (NC : c0 <> c). { intro; subst. rewrite (BOXC _ _ X2) in L. discriminate. }
-      exists id0, c0, ids0. split; [|split; [|split]]; auto.
-      * apply M2T; auto. intros id' L'. destruct (ST _ _ _ L') as [_ Y]. rewrite Y in X1. inv X1. rewrite X2 in L'. inv L'. congruence.
-      * apply ln_filter_keep. rewrite A1; auto. simpl. apply negb_true_iff. apply Nat.eqb_neq; auto.
-      * rewrite A5. simpl. rewrite ln_remove_other; auto.
+    apply mem_nat_In in M. apply GONE in M. destruct M as [id' L']. destruct (ST _ _ _ L') as [_ Y]. rewrite Y in L. inv L.
+    rewrite T in L'. inv L'. congruence. }
+  assert (TKEEP : forall id mb c', lookup_n id (s_tasks s2) = Some (mb, c') -> c' <> c ->
+            lookup_n id (filter (fun e : nat * (nat * nat) => negb (snd (snd e) =? c)) (s_tasks s2)) = Some (mb, c')).
+  { intros id mb c' L N. apply ln_filter_keep; auto. simpl. apply negb_true_iff. apply Nat.eqb_neq; auto. }
+  split; [|split; [|split; [|split; [|split; [|split; [|split; [|split]]]]]]].
+  - constructor; simpl.
+    + intros mb b L. destruct (SB _ _ L) as (id0 & c0 & ids0 & X1 & X2 & X3 & X4).
+      assert (NC : c0 <> c). { intro; subst. eapply EMPTY; eauto. }
+      exists id0, c0, ids0. split; [|split; [|split]]; eauto. rewrite ln_remove_other; auto.
     + intros id mb c' L. apply ln_filter_some in L. destruct L as [L F]. simpl in F. apply negb_true_iff in F. apply Nat.eqb_neq in F.
-      rewrite A1 in L. apply ln_unique in L; auto. destruct (ST _ _ _ L) as [Y1 Y2]. rewrite A3. split; auto.
-      apply M2T; auto. intros id' L'. destruct (ST _ _ _ L') as [_ Y]. rewrite Y in Y2. inv Y2. rewrite L in L'. inv L'. simpl in F. congruence.
-    + intros c0 ids0 id L IN. rewrite A5 in L. simpl in L. destruct (Nat.eq_dec c0 c). subst. rewrite ln_remove_same in L. discriminate.
-      rewrite ln_remove_other in L by auto. destruct (SC _ _ _ L IN) as (mb & M1 & M2). exists mb. split.
-      apply ln_filter_keep. rewrite A1; auto. simpl. apply negb_true_iff. apply Nat.eqb_neq; auto.
-      rewrite A7; auto. intros id' IN' L'. destruct (ST _ _ _ L') as [_ Y]. destruct (ST _ _ _ M1) as [_ Y']. rewrite Y in Y'. inv Y'.
-      rewrite M1 in L'. inv L'. congruence.
-    + intros c0 ids0 L. rewrite A5 in L. simpl in L. destruct (Nat.eq_dec c0 c). subst. rewrite ln_remove_same in L. discriminate.
-      rewrite ln_remove_other in L by auto. eauto.
-    + intros mb N. rewrite A3. apply SL. intro E. apply N. apply A8; auto.
-    + intros mb id IN. apply filter_In in IN. destruct IN as [IN _]. rewrite A2 in IN. rewrite A3. eauto.
-    + apply NoDup_keys_filter. rewrite A1; auto.
-  - rewrite A5. simpl. apply ln_remove_same.
-  - rewrite A4. simpl. auto.
-  - intros id mb IN. apply filter_In in IN. destruct IN as [_ F]. simpl in F. apply negb_true_iff in F. apply Nat.eqb_neq in F. simpl in F. congruence.
-  - intros id mb L. split; [|split].
-    + destruct (lookup_n id (filter (fun e : nat * (nat * nat) => negb (snd (snd e) =? c)) (s_tasks s2))) as [[mb' c']|] eqn:F; auto.
-      apply ln_filter_some in F. destruct F as [F1 F2]. rewrite A1 in F1. apply ln_unique in F1; auto. rewrite L in F1. inv F1.
-      simpl in F2. apply negb_true_iff in F2. apply Nat.eqb_neq in F2. simpl in F2. congruence.
-    + match goal with |- lookup_n mb ?l = None => destruct (lookup_n mb l) eqn:F; auto end.
-      apply ln_filter_some in F. destruct F as [_ F]. simpl in F. apply negb_true_iff in F.
+      simpl in F. apply ln_unique in L; auto. destruct (ST _ _ _ L) as [Y1 Y2]. split; auto. eapply M2T; eauto.
+    + intros mb id L. apply ln_filter_some in L. destruct L as [L F]. simpl in F. apply negb_true_iff in F.
+      apply ln_unique in L; auto. destruct (SM2 _ _ L) as [c' T]. exists c'. apply TKEEP; auto. intro; subst.
       assert (mem_nat mb (map (fun g : nat * (nat * nat) => fst (snd g)) gone) = true) by (apply mem_nat_In; apply GONE; eauto). congruence.
-    + eapply BOXC; eauto.
-  - intros a IN. destruct (A9 _ IN) as (id & mb & X1 & X2 & X3). eauto.
-  - exact A8.
-  - exact A3.
-  - intros c' N. rewrite A5. simpl. apply ln_remove_other; auto.
-  - intros x. rewrite A4. simpl. intuition.
+    + intros c0 ids0 id L IN. apply ln_remove_some in L. destruct L as [N L]. destruct (SC _ _ _ L IN) as (mb & M1 & M2).
+      exists mb. split; auto.
+    + intros c0 ids0 L. apply ln_remove_some in L. destruct L as [N L]. eauto.
+    + auto.
+    + intros mb id IN. apply filter_In in IN. destruct IN as [IN _]. eauto.
+    + apply NoDup_keys_filter; auto.
+    + apply NoDup_keys_filter; auto.
+  - simpl. apply ln_remove_same.
+  - simpl. rewrite K2. simpl. auto.
+  - simpl. intros id mb IN. apply filter_In in IN. destruct IN as [_ F]. simpl in F. apply negb_true_iff in F. apply Nat.eqb_neq in F. congruence.
+  - simpl. intros id mb L. split; [|split].
+    + destruct (lookup_n id (filter (fun e : nat * (nat * nat) => negb (snd (snd e) =? c)) (s_tasks s2))) as [[mb' c']|] eqn:F; auto.
+      apply ln_filter_some in F. destruct F as [F1 F2]. apply ln_unique in F1; auto. apply H2 in F1. rewrite L in F1. inv F1.
+      simpl in F2. apply negb_true_iff in F2. apply Nat.eqb_neq in F2. congruence.
+    + match goal with |- lookup_n mb ?l = None => destruct (lookup_n mb l) eqn:F; auto end.
+      apply ln_filter_some in F. destruct F as [F0 F]. simpl in F. apply negb_true_iff in F. apply ln_unique in F0; auto.
+      destruct (SM2 _ _ F0) as [c' T]. pose proof (H2 _ _ T) as T0. destruct (sv_task _ I _ _ _ L) as [_ Y].
+      destruct (sv_task _ I _ _ _ T0) as [_ Y']. rewrite Y in Y'. inv Y'. rewrite L in T0. inv T0.
+      assert (mem_nat mb (map (fun g : nat * (nat * nat) => fst (snd g)) gone) = true) by (apply mem_nat_In; apply GONE; eauto). congruence.
+    + destruct (lookup_n id (s_tasks s2)) as [[mb' c']|] eqn:T2.
+      * pose proof (H2 _ _ T2) as T0. rewrite L in T0. inv T0. eapply NOBOX; eauto.
+      * destruct (lookup_n mb (s_boxes s2)) eqn:B; auto. exfalso.
+        destruct (SB _ _ B) as (id0 & c0 & ids0 & X1 & X2 & X3 & X4). pose proof (H2 _ _ X2) as T0.
+        destruct (sv_task _ I _ _ _ T0) as [_ Y']. destruct (sv_task _ I _ _ _ L) as [_ Y]. rewrite Y in Y'. inv Y'. congruence.
+  - intros a IN. destruct (D2 _ IN) as (id & mb & X1 & X2 & X3). eauto.
+  - simpl. exact H4.
+  - simpl. intros k v F. apply ln_filter_some in F. destruct F as [F _]. apply ln_unique in F; auto.
+  - simpl. exact H1.
 Qed.
 
-(* a server mailbox that is gone never comes back *)
+(* server mailboxes / mailbox_to_task_dict entries that are gone never come back *)
 Definition sext (s s' : sstate) : Prop :=
-  s_counter s <= s_counter s' /\ forall mb, mb < s_counter s -> lookup_n mb (s_boxes s) = None -> lookup_n mb (s_boxes s') = None.
+  s_counter s <= s_counter s'
+  /\ (forall mb, mb < s_counter s -> lookup_n mb (s_boxes s) = None -> lookup_n mb (s_boxes s') = None)
+  /\ (forall mb, mb < s_counter s -> lookup_n mb (s_m2t s) = None -> lookup_n mb (s_m2t s') = None).
 Lemma sext_refl s : sext s s. Proof. split; auto. Qed.
-
-Lemma NoDup_snoc {A} (l : list A) x : NoDup l -> ~ In x l -> NoDup (l ++ [x]).
-Proof. induction l as [|y l IH]; simpl; intros N H.
-  - constructor. intros []. constructor.
-  - inv N. constructor.
-    + intro X. apply in_app_or in X. destruct X as [X|[X|[]]]; auto.
-    + apply IH; auto.
-Qed.
+Lemma sext_same s s' : s_counter s' = s_counter s -> s_boxes s' = s_boxes s -> s_m2t s' = s_m2t s -> sext s s'.
+Proof. intros A B C. split. lia. rewrite B, C. auto. Qed.
+Lemma sext_sub s s' : s_counter s' = s_counter s -> submap (s_boxes s') (s_boxes s) -> submap (s_m2t s') (s_m2t s) -> sext s s'.
+Proof. intros A B C. split. lia. split; intros; eapply submap_none; eauto. Qed.
 
 Lemma sreq_inv nw c r asg s s' o iss : sreq nw c r asg s = Some (s', o, iss) -> srv_inv s -> srv_inv s' /\ sext s s'.
 Proof.
   intros H I. destruct r; unfold sreq in H; cbv beta iota in H.
   - (* connect *)
     destruct (lookup_n c (s_clients s)) eqn:C; [discriminate|]. destruct (mem_nat c (s_closed s)); inv H.
-    split; [|split; simpl; auto]. destruct I as [SB ST SC SN SL SM SK]. constructor; simpl; auto.
+    split; [|apply sext_same; auto]. destruct I as [SB ST SM2 SC SN SL SM SK SK2]. constructor; simpl; auto.
     + intros mb b L. destruct (SB _ _ L) as (id0 & c0 & ids0 & X1 & X2 & X3 & X4). exists id0, c0, ids0. repeat split; auto.
       rewrite ln_put_other; auto. congruence.
     + intros c0 ids0 id L IN. destruct (Nat.eq_dec c0 c). subst. rewrite ln_put_same in L. inv L. destruct IN.
@@ -2156,7 +2220,7 @@ Proof.
     destruct (lookup_n c (s_clients s)) as [ids|] eqn:C; [|discriminate].
     destruct (lookup_n id (s_tasks s)) eqn:T; [discriminate|].
     match type of H with context[schedule ?a ?b ?c] => destruct (schedule a b c) end; inv H.
-    destruct I as [SB ST SC SN SL SM SK]. set (mb := s_counter s) in *.
+    destruct I as [SB ST SM2 SC SN SL SM SK SK2]. set (mb := s_counter s) in *.
     assert (F1 : lookup_n mb (s_m2t s) = None).
     { destruct (lookup_n mb (s_m2t s)) eqn:M; auto. apply ln_In in M. apply SM in M. unfold mb in M. lia. }
     assert (F2 : lookup_n mb (s_boxes s) = None).
@@ -2180,6 +2244,9 @@ Proof.
         -- subst. rewrite ln_put_same in L. inv L. rewrite ln_put_same. split; auto.
         -- rewrite ln_put_other in L by auto. destruct (ST _ _ _ L) as [Y1 Y2]. split. lia.
            rewrite ln_put_other; auto. intro; subst. eapply F3; eauto.
+      * intros mb' id' L. destruct (Nat.eq_dec mb' mb).
+        -- subst mb'. rewrite ln_put_same in L. inv L. exists c. apply ln_put_same.
+        -- rewrite ln_put_other in L by auto. destruct (SM2 _ _ L) as [c' X]. exists c'. rewrite ln_put_other; auto. congruence.
       * intros c0 ids0 id' L IN. destruct (Nat.eq_dec c0 c).
         -- subst. rewrite ln_put_same in L. inv L. apply INS in IN. destruct IN as [->|IN].
            exists mb. rewrite !ln_put_same. split; auto. congruence.
@@ -2194,7 +2261,8 @@ Proof.
       * intros mb' N. destruct (Nat.eq_dec mb' mb). subst; lia. rewrite ln_put_other in N by auto. apply SL in N. lia.
       * intros mb' id' IN. apply In_put_inv in IN. destruct IN as [IN|IN]. inv IN. lia. apply SM in IN. lia.
       * rewrite keys_put_new by auto. apply NoDup_snoc; auto. eapply lookup_none_notin; eauto.
-    + split; simpl. lia. intros mb' L N. rewrite ln_put_other; auto. unfold mb. lia.
+      * rewrite keys_put_new by auto. apply NoDup_snoc; auto. eapply lookup_none_notin; eauto.
+    + split; simpl. lia. split; intros mb' L N; rewrite ln_put_other; auto; unfold mb; lia.
   - (* request *)
     destruct (lookup_n c (s_clients s)) as [ids|] eqn:C; [|discriminate].
     destruct (if mem_nat id ids then lookup_n id (s_tasks s) else None) as [[mb c']|] eqn:T.
@@ -2202,7 +2270,7 @@ Proof.
       destruct (lookup_n mb (s_boxes s)) as [box|] eqn:B; [|discriminate].
       destruct (sv_cli _ I _ _ _ C M) as (mb0 & M1 & _). rewrite T in M1. inv M1.
       destruct (sb_result box) eqn:R; inv H.
-      * split; [|split; simpl; auto; intros; apply ln_remove_none; auto].
+      * split; [|apply sext_sub; simpl; auto; [apply submap_remove|intros ? ? X; exact X]].
         pose proof (sv_nodup _ I _ _ C) as ND. destruct (NoDup_remove_first id _ ND) as [ND1 ND2].
         apply (srv_inv_drop s id mb0 c); auto.
         -- intros c0 ids0 L. destruct (Nat.eq_dec c0 c). subst. rewrite ln_put_same in L. inv L. exists ids. repeat split; auto.
@@ -2211,18 +2279,17 @@ Proof.
            intro; subst. destruct (sv_cli _ I _ _ _ L H) as (mb1 & X1 & _). rewrite T in X1. inv X1. congruence.
         -- intros c0 ids1 L. destruct (Nat.eq_dec c0 c). subst. rewrite ln_put_same. eauto. rewrite ln_put_other by auto. eauto.
       * split.
-        -- destruct I as [SB ST SC SN SL SM SK]. constructor; simpl; auto.
+        -- destruct I as [SB ST SM2 SC SN SL SM SK SK2]. constructor; simpl; auto.
            ++ intros mb' b L. destruct (Nat.eq_dec mb' mb0). subst. eapply SB; eauto. rewrite ln_put_other in L by auto. eauto.
            ++ intros c0 ids0 id' L IN. destruct (SC _ _ _ L IN) as (mb1 & X1 & X2). exists mb1. split; auto.
               destruct (Nat.eq_dec mb1 mb0). subst. rewrite ln_put_same. congruence. rewrite ln_put_other; auto.
            ++ intros mb' N. destruct (Nat.eq_dec mb' mb0). subst. apply SL. congruence. rewrite ln_put_other in N by auto. auto.
-        -- split; simpl; auto. intros mb' L N. destruct (Nat.eq_dec mb' mb0). subst. congruence. rewrite ln_put_other; auto.
-    + pose proof (disconnect_spec _ _ _ _ _ _ _ H I) as (D1 & _ & _ & _ & _ & _ & D7 & D8 & _). split; auto. split. lia. intros; auto.
+        -- split; simpl; auto. split; auto. intros mb' L N. destruct (Nat.eq_dec mb' mb0). subst. congruence. rewrite ln_put_other; auto.
+    + pose proof (disconnect_spec _ _ _ _ _ _ _ H I) as (D1 & _ & _ & _ & _ & _ & D7 & D8 & D9). split; auto. apply sext_sub; auto.
   - (* cancel *)
-    pose proof (cancel_comp_spec _ _ _ _ _ _ H I) as (mb & c' & _ & D1 & _ & _ & _ & _ & _ & _ & D9 & _ & D11 & _). split; auto.
-    split. lia. intros; auto.
+    pose proof (cancel_comp_spec _ _ _ _ _ _ _ H I) as (D1 & [A1 A2 A3 A4 A5 A6] & _). split; auto. apply sext_sub; auto.
   - (* disconnect *)
-    pose proof (disconnect_spec _ _ _ _ _ _ _ H I) as (D1 & _ & _ & _ & _ & _ & D7 & D8 & _). split; auto. split. lia. intros; auto.
+    pose proof (disconnect_spec _ _ _ _ _ _ _ H I) as (D1 & _ & _ & _ & _ & _ & D7 & D8 & D9). split; auto. apply sext_sub; auto.
 Qed.
 
 Lemma sup_inv nw m asg s s' o lab : sup nw m asg s = Some (s', o, lab) -> srv_inv s -> srv_inv s' /\ sext s s'.
@@ -2239,7 +2306,7 @@ Proof.
         destruct (mem_nat id ids) eqn:MM; inv H.
         destruct (sv_task _ I _ _ _ T) as [_ Y]. destruct (sv_box _ I _ _ B) as (id0 & c0 & ids0 & X1 & X2 & X3 & X4).
         rewrite M in X1. inv X1. rewrite T in X2. inv X2. rewrite C in X3. inv X3.
-        split; [|split; simpl; auto; intros; apply ln_remove_none; auto].
+        split; [|apply sext_sub; simpl; auto; [apply submap_remove|intros ? ? X; exact X]].
         pose proof (sv_nodup _ I _ _ C) as ND. destruct (NoDup_remove_first id0 _ ND) as [ND1 ND2].
         apply (srv_inv_drop s id0 mb c0); auto.
         -- intros c1 ids1 L. destruct (Nat.eq_dec c1 c0). subst. rewrite ln_put_same in L. inv L. exists ids0. repeat split; auto.
@@ -2248,12 +2315,12 @@ Proof.
            intro; subst. destruct (sv_cli _ I _ _ _ L H) as (mb1 & Z1 & _). rewrite T in Z1. inv Z1. congruence.
         -- intros c1 ids1 L. destruct (Nat.eq_dec c1 c0). subst. rewrite ln_put_same. eauto. rewrite ln_put_other by auto. eauto.
       * inv H. split.
-        -- destruct I as [SB ST SC SN SL SM SK]. constructor; simpl; auto.
+        -- destruct I as [SB ST SM2 SC SN SL SM SK SK2]. constructor; simpl; auto.
            ++ intros mb' b L. destruct (Nat.eq_dec mb' mb). subst. eapply SB; eauto. rewrite ln_put_other in L by auto. eauto.
            ++ intros c0 ids0 id' L IN. destruct (SC _ _ _ L IN) as (mb1 & X1 & X2). exists mb1. split; auto.
               destruct (Nat.eq_dec mb1 mb). subst. rewrite ln_put_same. congruence. rewrite ln_put_other; auto.
            ++ intros mb' N. destruct (Nat.eq_dec mb' mb). subst. apply SL. congruence. rewrite ln_put_other in N by auto. auto.
-        -- split; simpl; auto. intros mb' L N. destruct (Nat.eq_dec mb' mb). subst. congruence. rewrite ln_put_other; auto.
+        -- split; simpl; auto. split; auto. intros mb' L N. destruct (Nat.eq_dec mb' mb). subst. congruence. rewrite ln_put_other; auto.
     + destruct (x <? nw); inv H. split; auto. apply sext_refl.
   - inv H. split; auto. apply sext_refl.
   - inv H. split; auto. apply sext_refl.
@@ -2280,7 +2347,7 @@ Proof.
   - destruct (step fx P s e) as [[s1 l1]|] eqn:S; [|discriminate].
     destruct (run fx P s1 r) as [[s2 l2]|] eqn:R; [|discriminate]. inv H.
     destruct (step_server _ _ _ _ _ S I) as [I1 [E1 E2]]. destruct (IH _ _ _ R I1) as [I2 [E3 E4]]. split; auto.
-    split. lia. intros mb L N. apply E4. lia. apply E2; auto.
+    destruct E2 as [E2 E2']. destruct E4 as [E4 E4']. split. lia. split; intros mb L N. apply E4. lia. apply E2; auto. apply E4'. lia. apply E2'; auto.
 Qed.
 
 Lemma srv_inv_reach P nw evs s l : run fx P (init_sys nw) evs = Some (s, l) -> srv_inv (sy_server s).
@@ -2306,25 +2373,66 @@ Lemma sup_discards nw mb slot v by_ asg s : lookup_n mb (s_boxes s) = None ->
   sup nw (MResult (0, mb, slot) v by_) asg s = Some (s, no_out, [LSrvDiscard mb v]).
 Proof. intros H. simpl. rewrite H. auto. Qed.
 
-Theorem client_cancel P nw evs s0 l0 c id asg s1 l1 :
+
+(* late ERROR / LOG of a cancelled compilation: no mailbox_to_task_dict entry, so it is dropped *)
+Lemma sup_error_discarded nw comp kind asg s : lookup_n comp (s_m2t s) = None ->
+  sup nw (MError comp kind) asg s = Some (s, no_out, []).
+Proof. intros H. simpl. rewrite H. auto. Qed.
+
+Theorem client_cancel P nw evs s0 l0 c id asg s1 l1 ids :
   run fx P (init_sys nw) evs = Some (s0, l0) -> step fx P s0 (EClient c (CCancel id) asg) = Some (s1, l1) ->
-  exists mb owner, lookup_n id (s_tasks (sy_server s0)) = Some (mb, owner)
+  lookup_n c (s_clients (sy_server s0)) = Some ids -> In id ids ->
+  exists mb, lookup_n id (s_tasks (sy_server s0)) = Some (mb, c)
+    /\ lookup_n id (s_tasks (sy_server s1)) = None
+    /\ lookup_n mb (s_m2t (sy_server s1)) = None
     /\ lookup_n mb (s_boxes (sy_server s1)) = None
-    /\ (forall ids, lookup_n owner (s_clients (sy_server s1)) = Some ids -> ~ In id ids)
+    /\ (forall ids', lookup_n c (s_clients (sy_server s1)) = Some ids' -> ~ In id ids')
     /\ (forall k q, nth_error (sy_down s0) k = Some q -> nth_error (sy_down s1) k = Some (q ++ [MCancel (0, mb, 0)]))
     /\ sy_issued s1 = sy_issued s0 ++ [(0, mb, 0)]
-    /\ (forall evs2 s2 l2, run fx P s1 evs2 = Some (s2, l2) -> lookup_n mb (s_boxes (sy_server s2)) = None).
+    /\ (forall evs2 s2 l2, run fx P s1 evs2 = Some (s2, l2) ->
+          lookup_n mb (s_boxes (sy_server s2)) = None /\ lookup_n mb (s_m2t (sy_server s2)) = None).
 Proof.
-  intros R ST. pose proof (srv_inv_reach _ _ _ _ _ R) as I.
+  intros R ST C IN. pose proof (srv_inv_reach _ _ _ _ _ R) as I.
   assert (SI : sinv s0) by (eapply run_sinv; eauto; apply sinv_init). destruct SI as [[LU LD WK] _ _].
   pose proof (step_server _ _ _ _ _ ST I) as [I1 _].
   apply step_client in ST. destruct ST as (srv & o & iss & H1 & -> & _). simpl in H1.
-  pose proof (cancel_comp_spec _ _ _ _ _ _ H1 I) as (mb & owner & T & _ & B & CL & -> & OD & _ & _ & CN & _).
-  exists mb, owner. simpl. split; auto. split; auto. split; auto. split; [|split; auto].
-  - intros k q Q. erewrite push_down_nth; eauto. rewrite OD. rewrite broadcast_filter; auto.
+  pose proof (cancel_comp_spec _ _ _ _ _ _ _ H1 I) as (_ & SH & _ & NI & [(ids0 & mb & A1 & A2 & A3 & A4 & A5 & A6 & A7 & A8)|(_ & _ & _ & X)]).
+  2:{ exfalso. eapply X; eauto. }
+  exists mb. simpl. subst iss. repeat split; auto.
+  - intros k q Q. erewrite push_down_nth; eauto. rewrite A8. rewrite broadcast_filter; auto.
     rewrite <- LD. apply nth_error_Some. congruence.
-  - intros evs2 s2 l2 R2. apply run_server in R2; auto. simpl in R2. destruct R2 as [_ [_ E]]. apply E; auto.
-    rewrite CN. eapply sv_task; eauto.
+  - apply run_server in H; auto. simpl in H. destruct H as [_ [_ [E _]]]. apply E; auto.
+    rewrite (sh_counter _ _ SH). eapply sv_task; eauto.
+  - apply run_server in H; auto. simpl in H. destruct H as [_ [_ [_ E]]]. apply E; auto.
+    rewrite (sh_counter _ _ SH). eapply sv_task; eauto.
+Qed.
+
+(* cancel of anything that is not the requester's own live task (finished, cancelled before, unknown, somebody
+   else's): acknowledged, nothing changes anywhere *)
+Theorem client_cancel_other P nw evs s0 l0 c id asg s1 l1 ids :
+  run fx P (init_sys nw) evs = Some (s0, l0) -> step fx P s0 (EClient c (CCancel id) asg) = Some (s1, l1) ->
+  lookup_n c (s_clients (sy_server s0)) = Some ids -> ~ In id ids ->
+  sy_server s1 = sy_server s0 /\ sy_down s1 = sy_down s0 /\ sy_up s1 = sy_up s0 /\ sy_workers s1 = sy_workers s0
+  /\ sy_issued s1 = sy_issued s0.
+Proof.
+  intros R ST C NI. pose proof (srv_inv_reach _ _ _ _ _ R) as I.
+  apply step_client in ST. destruct ST as (srv & o & iss & H1 & -> & _). simpl in H1.
+  pose proof (cancel_comp_spec _ _ _ _ _ _ _ H1 I) as (_ & _ & _ & _ & [(ids0 & mb & A1 & A2 & _)|(E1 & E2 & E3 & _)]).
+  - rewrite C in A1. inv A1. contradiction.
+  - subst. simpl. rewrite E3. simpl. rewrite app_nil_r. auto.
+Qed.
+
+(* a connected client's CANCEL never raises (D4 is gone) *)
+Theorem client_cancel_total P nw evs s0 l0 c id asg ids :
+  run fx P (init_sys nw) evs = Some (s0, l0) -> lookup_n c (s_clients (sy_server s0)) = Some ids ->
+  exists s1 l1, step fx P s0 (EClient c (CCancel id) asg) = Some (s1, l1).
+Proof.
+  intros R C. pose proof (srv_inv_reach _ _ _ _ _ R) as I.
+  unfold step. simpl. unfold cancel_comp. rewrite C.
+  destruct (mem_nat id ids) eqn:M; [|eauto].
+  apply mem_nat_In in M. destruct (sv_cli _ I _ _ _ C M) as (mb & T & B). rewrite T.
+  destruct (lookup_n mb (s_boxes (sy_server s0))) eqn:BB; [|congruence].
+  destruct (sv_task _ I _ _ _ T) as [_ M2]. rewrite M2. eauto.
 Qed.
 
 Theorem client_disconnect P nw evs s0 l0 c order asg s1 l1 :
@@ -2334,7 +2442,8 @@ Theorem client_disconnect P nw evs s0 l0 c order asg s1 l1 :
   /\ (forall id mb, lookup_n id (s_tasks (sy_server s0)) = Some (mb, c) ->
         lookup_n id (s_tasks (sy_server s1)) = None /\ lookup_n mb (s_m2t (sy_server s1)) = None
         /\ lookup_n mb (s_boxes (sy_server s1)) = None
-        /\ forall evs2 s2 l2, run fx P s1 evs2 = Some (s2, l2) -> lookup_n mb (s_boxes (sy_server s2)) = None)
+        /\ forall evs2 s2 l2, run fx P s1 evs2 = Some (s2, l2) ->
+             lookup_n mb (s_boxes (sy_server s2)) = None /\ lookup_n mb (s_m2t (sy_server s2)) = None)
   /\ (forall a, In a (sy_issued s1) -> In a (sy_issued s0)
         \/ exists id mb, lookup_n id (s_tasks (sy_server s0)) = Some (mb, c) /\ a = (0, mb, 0))
   /\ (forall a k q, In a (sy_issued s1) -> ~ In a (sy_issued s0) -> nth_error (sy_down s1) k = Some q -> In (MCancel a) q).
@@ -2344,11 +2453,11 @@ Proof.
   pose proof (step_server _ _ _ _ _ ST I) as [I1 _].
   apply step_client in ST. destruct ST as (srv & o & iss & H1 & -> & _). simpl in H1.
   pose proof (disconnect_bcast _ _ _ _ _ _ _ H1) as BC.
-  pose proof (disconnect_spec _ _ _ _ _ _ _ H1 I) as (_ & D2 & D3 & D4 & D5 & D6 & D7 & D8 & _).
+  pose proof (disconnect_spec _ _ _ _ _ _ _ H1 I) as (_ & D2 & D3 & D4 & D5 & D6 & D7 & D8 & D9).
   simpl. split; auto. split; auto. split; [|split].
   - intros id mb L. destruct (D5 _ _ L) as (X1 & X2 & X3). repeat split; auto.
-    intros evs2 s2 l2 R2. apply run_server in R2; auto. simpl in R2. destruct R2 as [_ [_ E]]. apply E; auto.
-    rewrite D8. eapply sv_task; eauto.
+    + apply run_server in H; auto. simpl in H. destruct H as [_ [_ [E _]]]. apply E; auto. rewrite D9. eapply sv_task; eauto.
+    + apply run_server in H; auto. simpl in H. destruct H as [_ [_ [_ E]]]. apply E; auto. rewrite D9. eapply sv_task; eauto.
   - intros a IN. apply in_app_or in IN. destruct IN as [IN|IN]; auto.
   - intros a k q IN NI Q. apply in_app_or in IN. destruct IN as [IN|IN]; [contradiction|].
     assert (KL : k < length (sy_workers s0)).
